@@ -115,6 +115,34 @@ func checkC19(c *Ctx) {
 			good := ok && root(sl.X) == buf && sl.High == nVal && (sl.Low == nil || isZero(sl.Low))
 			c.Check(good, "C19-R1", label+":relay-operand", w.Pos(), "the peer receives data[:n] of the same read", "the bytes written to the peer are not exactly data[:n] of the preceding read")
 		}
+		// the peer write cannot be cut short silently: its result is ignored (today), so no write
+		// deadline may be armed on a relay connection anywhere in the proxy
+		for _, w := range writes {
+			used := false
+			for _, r := range referrers(w) {
+				if _, isDbg := r.(*ssa.DebugRef); !isDbg {
+					used = true
+				}
+			}
+			if used {
+				continue // result inspected: a partial write can be completed or reported
+			}
+			armed := false
+			for _, g := range P.FuncsIn(pkg) {
+				eachInstr(g, func(ins ssa.Instruction) {
+					for _, m := range []string{"SetDeadline", "SetWriteDeadline"} {
+						if dc, _ := invokeOn(ins, m); dc != nil {
+							armed = true
+							c.Fail("C19-R1", label+":write-complete("+P.FnKey(g)+")", ins.Pos(), "refuted",
+								"a write deadline is set on a relay connection while the result of the peer Write is ignored: a timed-out write drops part of a block and relaying continues with a hole in the stream")
+						}
+					}
+				})
+			}
+			if !armed {
+				c.OK("C19-R1", label+":write-complete", w.Pos(), "no deadline is ever set on the relay connections, so Write returns only after the whole block was accepted or the connection failed")
+			}
+		}
 		// fresh buffer per iteration: the buffer is made inside the loop and dominates the read
 		fresh := false
 		if bi, ok := buf.(ssa.Instruction); ok && isFreshSlice(buf) {
